@@ -38,7 +38,7 @@ class CoordCart(object):
         self.xaxis = float(xaxis)
         self.yaxis = float(yaxis)
         self.zaxis = float(zaxis)
-        if not nval:
+        if nval is None:
             self.nval = None
         else:
             self.nval = float(nval)
@@ -242,9 +242,9 @@ class CoordGeo(object):
         :return: Cartesian Coordinate
         :rtype: CoordCart
         """
-        if self.ell_ht:
+        if self.ell_ht is not None:
             x, y, z = llh2xyz(self.lat, self.lon, self.ell_ht, ellipsoid)
-            if self.orth_ht:  # Only N Value if both Ellipsoid and Ortho Heights
+            if self.orth_ht is not None:  # Only N Value if both Ellipsoid and Ortho Heights
                 return CoordCart(x, y, z, self.ell_ht - self.orth_ht)
             else:  # No Ortho Height -> No N Value
                 return CoordCart(x, y, z)
